@@ -75,8 +75,8 @@ Lemma shiftl8 x : N.shiftl x 8 = x * 256. Proof. rewrite N.shiftl_mul_pow2. refl
 
 Lemma acc_size_be bs : acc_size bs = be_value bs.
 Proof.
-  unfold acc_size, be_value. generalize 0. induction bs as [|x r IH]; intros a; cbn; [reflexivity|].
-  rewrite shiftl8. apply IH.
+  unfold acc_size, be_value. generalize 0. induction bs as [|x r IH]; intros a; cbn [fold_left be_acc]; [reflexivity|].
+  rewrite shiftl8. replace (a * 256 + x) with (256 * a + x) by lia. apply IH.
 Qed.
 
 (* ---------- the encoder's prefix, in arithmetic form ---------- *)
@@ -151,5 +151,5 @@ Proof.
   rewrite Hland. rewrite <- Hl, take_exact_app.
   destruct (6 <? c); [reflexivity|]. cbv zeta.
   rewrite acc_size_be. unfold be_value. cbn [be_acc]. rewrite be_acc_shift. fold (be_value more).
-  rewrite Hl, N2Nat.id. rewrite N.mul_0_l, N.add_0_l. reflexivity.
+  rewrite Hl, N2Nat.id. rewrite N.mul_0_r, N.add_0_l. reflexivity.
 Qed.
